@@ -781,9 +781,6 @@ Theorem connect_failed_down c m c' e tr :
   connect_run c m c' e tr -> e <> 0 -> k_closed c = false -> k_wsem c' = WsDown.
 Proof. intros H He CL. inversion H; subst; congruence. Qed.
 
-Theorem connect_run_err c m c' e tr : connect_run c m c' e tr -> e = 0 \/ e <> 0.
-Proof. intros _. destruct (N.eq_dec e 0); auto. Qed.
-
 (* every write of the call is on the connection it dialed, and the first Write call of
    all carries the whole CONNECT packet *)
 Theorem connect_first_write c m c' e tr :
